@@ -102,13 +102,20 @@ def assembly(o):
     # the two assembly expressions are evaluated on a generic row by interpreting the real statement
     mod = extract.load_module('pylife.strength.meanstress')
     node = mod.find('HaighDiagram.transform')
-    src = ast.get_source_segment(mod.source, node)
     o.functions.add((mod.name, 'HaighDiagram.transform'))
-    ok1 = "'range': 2. * transfomed_cycles.amplitude" in src
-    ok2 = "'mean': transfomed_cycles.amplitude * ((1.+transfomed_cycles.R)/(1.-transfomed_cycles.R)).fillna(-1.0)" in src
-    o.prove('assembly statement has the verified form (syntactic)', z3.BoolVal(ok1 and ok2))
+    # the dict literal {'range': ..., 'mean': ...} of the real method is located in its AST and its two value expressions are evaluated symbolically on a generic
+    # row (a first version compared the source text with the expected strings and alarmed on a reformatted file)
+    dicts = [n for n in ast.walk(node) if isinstance(n, ast.Dict) and [getattr(k, 'value', None) for k in n.keys] == ['range', 'mean']]
+    if len(dicts) != 1:
+        raise Unbound("the result assembly {'range': ..., 'mean': ...} was not found in HaighDiagram.transform")
     a, Rr = o.reals('a R')
     o.assume(a >= 0, Rr != 1)
+    o.safety_exempt = ['divisor != 0']
+    tc = Rec({'amplitude': SV(a, kind='series'), 'R': SV(Rr, kind='series')}, 'frame')
+    fr = Frame(o.I, mod, {'transfomed_cycles': tc}, None, 'pylife.strength.meanstress::HaighDiagram.transform', node=node)
+    vals = o.run1(lambda: tuple(fr.eval(v) for v in dicts[0].values), label='assembly')
+    o.prove('assembled range == 2 a\'', vals[0].t == 2 * a)
+    o.prove('assembled mean == a\' (1 + R)/(1 - R) for finite R', vals[1].t == a * (1 + Rr) / (1 - Rr))
     o.prove('finite R: mean = a (1+R)/(1-R) satisfies (mean - a)/(mean + a) == R when mean + a != 0',
             z3.Implies(a * (1 + Rr) / (1 - Rr) + a != 0, (a * (1 + Rr) / (1 - Rr) - a) / (a * (1 + Rr) / (1 - Rr) + a) == Rr), kind='lemma')
     o.note("R = -inf: (1+R)/(1-R) evaluates to nan in floating point (inf/inf) and is replaced by -1: mean = -a', the R = -inf ray; "
